@@ -24,7 +24,7 @@ META = dict(
     text="Every parameter that accepts a distribution (25 aberration symbols, defocus, soft/hard aperture cutoff, focal and angular spread, 4 tilt "
          "representations, 3 scan kinds), with 3 distribution kinds, every cross-family parameter pair, through apply_ctf / transform.apply / "
          "Probe.build / PlaneWave.build / multislice, is compared member by member with the corresponding scalar run; axis metadata values and order "
-         "are checked; reductions are checked against the unreduced ensemble and against the weighted sum of scalar runs.",
+         "are checked; reductions are checked against the unreduced ensemble and against the weighted sum of scalar runs. 5-member parameter ensembles are evaluated lazily with max_batch 1, 2, 3, auto (all resulting partitions of the parameter axis) against the eager result.",
     note="Bound: 3-sample distributions, 16x12 grid, one or three probe positions. Tolerance 2e-5 of max. The normalisation constant of a reduced "
          "measurement (1/N on this tree) is recorded, not judged: the statement fixes the weights, not the overall factor.",
 )
